@@ -653,6 +653,57 @@ Proof.
   - intros mx E k Hk. cbn in E. inversion E; subst. assert (k = 0 \/ k = 1) as [->| ->] by lia; [exists 1%nat|exists 0%nat]; cbn; split; auto.
 Qed.
 
+
+(* ---- sibling ladders outside Polyhedron (the cheap ones) ----
+   Box<ITV>::add_constraint (Box_inlines.hh add_constraint + Box_templates.hh add_constraint_no_check): dimension, then
+   "c is an interval constraint" (Box_Helpers::extract_interval_constraint), then "nontrivial strict constraint on an always-closed ITV";
+   NOTHING depends on the receiver being empty: the emptiness shortcut comes after the validation. *)
+Record box_cshape := { bc_dim : N; bc_interval : bool; bc_strict : bool; bc_nvars : N }.
+Definition box_add_constraint_check (n : N) (itv_closed : bool) (c : box_cshape) : option exn :=
+  first_fail [ (dim_gt (bc_dim c) n, ia); (negb (bc_interval c), ia); (bc_strict c && negb (bc_nvars c =? 0) && itv_closed, ia) ].
+Definition box_add_constraint_doc (n : N) (itv_closed : bool) (c : box_cshape) : Prop :=
+  bc_dim c <= n /\ bc_interval c = true /\ ~ (bc_strict c = true /\ bc_nvars c <> 0 /\ itv_closed = true).
+Theorem box_add_constraint_complete n cl c : box_add_constraint_check n cl c = None <-> box_add_constraint_doc n cl c.
+Proof.
+  unfold box_add_constraint_check, box_add_constraint_doc.
+  pose proof (dim_gt_false (bc_dim c) n) as D. pose proof (N.eqb_eq (bc_nvars c) 0) as E.
+  destruct (dim_gt (bc_dim c) n), (bc_interval c), (bc_strict c), (bc_nvars c =? 0), cl; cbn [first_fail andb orb negb];
+    intuition (try discriminate; try congruence; try lia).
+Qed.
+
+(* MIP_Problem::add_constraint / add_constraints (MIP_Problem.cc:164-205): dimension, then strictness; for a system the strictness
+   test is made on the WHOLE system before anything is appended (all or nothing) *)
+Definition mip_add_constraint_check (n cdim : N) (strict : bool) : option exn := first_fail [ (dim_gt cdim n, ia); (strict, ia) ].
+Definition mip_add_constraints_check (n : N) (cs : csshape) : option exn := first_fail [ (dim_gt (cs_dim cs) n, ia); (has_strict cs, ia) ].
+Theorem mip_add_constraint_complete n cdim strict : mip_add_constraint_check n cdim strict = None <-> cdim <= n /\ strict = false.
+Proof.
+  unfold mip_add_constraint_check. pose proof (dim_gt_false cdim n) as D.
+  destruct (dim_gt cdim n), strict; cbn [first_fail]; intuition (try discriminate; try lia).
+Qed.
+Theorem mip_add_constraints_complete n cs :
+  mip_add_constraints_check n cs = None <-> cs_dim cs <= n /\ forall k, In k (cs_rows cs) -> c_strict k = true -> c_triv k = Taut.
+Proof.
+  unfold mip_add_constraints_check, has_strict. pose proof (dim_gt_false (cs_dim cs) n) as D.
+  destruct (dim_gt (cs_dim cs) n); cbn [first_fail].
+  - split; [discriminate|]. intros [H _]. apply D in H. discriminate.
+  - destruct (existsb _ (cs_rows cs)) eqn:E.
+    + split; [discriminate|]. intros [_ H]. apply existsb_exists in E. destruct E as [k [Hk Hb]].
+      apply andb_true_iff in Hb. destruct Hb as [Hs Ht]. specialize (H k Hk Hs). rewrite H in Ht. discriminate.
+    + split; [|reflexivity]. intros _. split; [apply D; reflexivity|]. intros k Hk Hs.
+      pose proof (proj1 (existsb_false_forall _ _) E k Hk) as F. cbn beta in F. rewrite Hs in F. cbn [andb] in F.
+      destruct (c_triv k); cbn in F; try discriminate; reflexivity.
+Qed.
+(* the model's step for a system: appended as a whole or not at all *)
+Definition mip_add_constraints_step {A} (n : N) (shape : list A -> csshape) (rows : list A) (st : list A) : list A :=
+  match mip_add_constraints_check n (shape rows) with None => st ++ rows | Some _ => st end.
+Theorem mip_add_constraints_atomic A n (shape : list A -> csshape) rows st e :
+  mip_add_constraints_check n (shape rows) = Some e -> mip_add_constraints_step n shape rows st = st.
+Proof. unfold mip_add_constraints_step. intros ->. reflexivity. Qed.
+Example ex_box_reject_sum : box_add_constraint_check 3 false {| bc_dim := 2; bc_interval := false; bc_strict := false; bc_nvars := 2 |} = Some Invalid_argument.
+Proof. reflexivity. Qed.
+Example ex_mip_strict_last : mip_add_constraints_check 3 {| cs_dim := 2; cs_rows := [ {| c_dim := 2; c_strict := false; c_triv := Nontriv |}; {| c_dim := 2; c_strict := true; c_triv := Nontriv |} ] |} = Some Invalid_argument.
+Proof. reflexivity. Qed.
+
 (* ---- MIP_Problem / PIP_Problem: queries guarded by the solver status ---- *)
 Inductive mip_status := Mip_unsolved | Mip_unsat | Mip_sat | Mip_unbounded | Mip_optimized.
 Inductive mip_query := Feasible_point | Optimizing_point | Optimal_value | Evaluate_objective (gdim : N) (is_pt : bool).
